@@ -204,6 +204,28 @@ def c05_r3(ctx):
     ctx.check(good, key(pf, "typename field"), f"the __typename field with known values must be a Literal without default; got {[x.text()[:150] for x in o]}", pf.loc(), okmsg="__typename with known values -> Literal, required")
 
 
+@rule("C05.R6", "unions nested in a wrapper always get their discriminator (each payload item is validated against one class only)", min_instances=2, also=["C01", "C07"])
+def c05_r6(ctx):
+    repo = ctx.repo
+    pf = repo.func(RF + "parse_operation_field")
+    ifs = [n for n in walk_no_nested(pf.node) if isinstance(n, ast.If) and any("annotate_nested_unions(" in norm(x) for x in n.body)]
+    good = len(ifs) == 1 and norm(ifs[0].test) == "isinstance(annotation, ast.Subscript)" and len(ifs[0].body) == 1 \
+        and norm(ifs[0].body[0]).startswith("annotation.slice = annotate_nested_unions(")
+    ctx.check(good, key(pf, "nested unions"), f"annotate_nested_unions is applied under `{norm(ifs[0].test) if ifs else None}`: every wrapped annotation (List[...] as well as Optional[...]) must be walked, otherwise a "
+              "`[Interface!]!` list loses Field(discriminator=...) and pydantic tries every member class for every item (custom-scalar parse then runs once per member)", pf.loc(),
+              okmsg="every Subscript annotation is walked for nested unions")
+    an = repo.func(RF + "annotate_nested_unions")
+    probs = []
+    src = norm(an.node)
+    if "isinstance(annotation, ast.Tuple)" not in src or "annotate_nested_unions(cast(AnnotationSlice, elt)) for elt in annotation.elts" not in src:
+        probs.append("tuple slices are not walked element-wise")
+    if "annotation.value.id == UNION" not in src or "DISCRIMINATOR_KEYWORD: generate_constant(TYPENAME_ALIAS)" not in src:
+        probs.append("a Union[...] is not wrapped in Annotated[..., Field(discriminator=typename)]")
+    if "annotation.slice = annotate_nested_unions(cast(AnnotationSlice, annotation.slice))" not in src:
+        probs.append("other subscripts are not walked recursively")
+    ctx.check(not probs, key(an, "walk"), "; ".join(probs), an.loc(), okmsg="nested walk: tuples element-wise, unions annotated, other subscripts recursed")
+
+
 @rule("C05.R4", "built-in scalars map to their Python types; Any only for unconfigured custom scalars", min_instances=5, also=["C07", "C06"])
 def c05_r4(ctx):
     repo = ctx.repo
